@@ -251,8 +251,10 @@ class CCodeGenerator:
         element_size = self.sizeof(typ.element_type)
         implicit_value = (bytes([0] * element_size),)
 
+        array_size = self.context.eval_expr(typ.size)
+
         mem = ()
-        for value in ival.values:
+        for value in ival.values[:array_size]:
             # TODO: handle alignment
             if value is None:
                 element_mem = implicit_value
@@ -260,13 +262,9 @@ class CCodeGenerator:
                 element_mem = self.gen_global_ival(typ.element_type, value)
             mem = mem + element_mem
 
-        array_size = self.context.eval_expr(typ.size)
-
         if len(ival.values) < array_size:
             extra_implicit = array_size - len(ival.values)
             mem = mem + implicit_value * extra_implicit
-        elif len(ival.values) > array_size:
-            mem = mem[:array_size]
 
         return mem
 
